@@ -87,6 +87,8 @@ type Inst struct {
 	conn *nats.Conn
 	cfg  leader.ElectionConfig
 
+	creating bool // a start item is inside NewElection right now
+
 	created      bool
 	started      bool
 	crashed      bool
@@ -464,7 +466,20 @@ func (w *World) callAPI(in *Inst, it *Item) string {
 	}
 	switch it.Do {
 	case "start":
-		if !in.created {
+		// (two script items may call start concurrently inside a fine window - the scripted
+		// first start moved next to a manual one: the election object is created once, the
+		// other caller has no object to call yet, like any item that precedes the creation)
+		w.lock()
+		mine := !in.created && !in.creating
+		if mine {
+			in.creating = true
+		}
+		busy := !in.created && !mine
+		w.unlock()
+		if busy {
+			return "not-created"
+		}
+		if mine {
 			if err := in.create(); err != nil {
 				return "create:" + err.Error()
 			}
